@@ -90,10 +90,8 @@ def run(tier):
                                'route': 'R3 extract -> %s in work/nm/nm_extracted.c (origin map work/nm/nm_origin.txt)' % i['cname'],
                                'rules_fired': i['rules_fired'],
                                'dropped': 'heap allocation of std::string, locale; the #else branch of "#if 1" (not compiled by the repository either)'})
-    part.functions.append({'function': 'InterpreterImpl::isMatched', 'file': 'src/uscxml/interpreter/InterpreterImpl.cpp:459-461',
-                           'route': 'one-line forwarder to uscxml::nameMatch; recorded, not verified'})
     jobs = []
-    for h in ('h_nm_core', 'h_nm_scaffold', 'h_nm_same'):
+    for h in ('h_nm_core', 'h_nm_scaffold', 'h_nm_same', 'h_nm_forward'):
         jobs.append(cbmcrun.Job(h, [os.path.join(HERE, 'harness_nm.c')], h, wd, dfcc=False, includes=[HERE],
                                 defines={'NM_EXTRACTED': '"%s"' % cpath, 'L': str(L), 'VSTR_CAP': str(L)},
                                 cbmc_flags=['--drop-unused-functions', '--unwind', str(L + 3), '--unwinding-assertions'],
